@@ -93,7 +93,8 @@ def dispatch {E S R : Type} (tbl : Table E S R) (ced : Bool) (env : E) (s : S) (
   match buf with
   | [] => (s, .panicEmpty)
   | b0 :: payload =>
-    let (t, ign) := splitType b0
+    let t := (splitType b0).1
+    let ign := (splitType b0).2
     match tbl.lookup t with
     | some h =>
       match h env s idx payload with
